@@ -787,7 +787,7 @@ fn dated_hint_year_on_start_only() {
 
 // ---- year-less fixed bounds with day offsets: `Dec 24 -2 days-Jan 6 +3 days`, `Jan 2 -5 days-Jan 10` ------------------------
 
-//@H props=C01,C04 tier=thorough kind=bounded cap=2400 mem=medium bound="day offsets within +-10 days on both bounds, no weekday offsets" domain="all year-less (month, day) bounds x all dates 1900..9999, outside the invalid-day region; callees replaced by their contracts"
+//@H props=C01,C04 tier=deep kind=bounded cap=5400 mem=medium note="not finished after 40 min (solver); kept for the deep tier" bound="day offsets within +-10 days on both bounds, no weekday offsets" domain="all year-less (month, day) bounds x all dates 1900..9999, outside the invalid-day region; callees replaced by their contracts"
 #[cfg_attr(kani, kani::proof)]
 #[cfg_attr(kani, kani::unwind(5))]
 #[cfg_attr(kani, kani::stub(opening_hours_syntax::rules::day::DateOffset::apply, date_offset_apply_model))]
